@@ -1289,6 +1289,36 @@ func (x *c15flowX) prepCode(fd *ast.FuncDecl) string {
 		}
 		return x.fail(s, "statement of prepareRequest: %s", x.src(s))
 	}
+	// the statements between the header loop and the return write three different fields (URL.Scheme, Host, URL.Host) and
+	// read none of the others: they commute, and are emitted in a canonical order (scheme, hostDefault, urlHost)
+	rank := func(o string) int {
+		switch {
+		case strings.HasPrefix(o, "(.scheme"):
+			return 0
+		case o == ".hostDefault":
+			return 1
+		case o == ".urlHost":
+			return 2
+		}
+		return -1
+	}
+	for i := range ops {
+		if strings.HasPrefix(ops[i], "(.headers") {
+			j := i + 1
+			for j < len(ops) && rank(ops[j]) >= 0 {
+				j++
+			}
+			tail := append([]string(nil), ops[i+1:j]...)
+			for a := 0; a < len(tail); a++ {
+				for b := a + 1; b < len(tail); b++ {
+					if rank(tail[b]) < rank(tail[a]) {
+						tail[a], tail[b] = tail[b], tail[a]
+					}
+				}
+			}
+			copy(ops[i+1:j], tail)
+		}
+	}
 	return fmt.Sprintf("/-- regenerated from `%s` method `prepareRequest`: one instruction per statement -/\ndef prepCode : List PrepOp :=\n  [%s]\n",
 		x.rel(fd), strings.Join(ops, ", "))
 }
